@@ -584,3 +584,59 @@ where
         f(r, ctx, l, &rec)
     });
 }
+
+/// Dictionary tokens (literals of the source under test) in *relations*: the same token as
+/// the name of two consecutive header lines (equal and different values, varied case), as
+/// two equal values, and as a name with whitespace before the colon. A special case keyed
+/// on a particular header name and on a relation between two lines is invisible to a
+/// grammar and to single-token splicing.
+pub fn dict_dup_phase<F>(r: &Runner, sub: &'static str, accept: &(dyn Fn(Entry, u8) -> bool + Sync), f: F)
+where
+    F: Fn(&Runner, &mut Ctx, &mut Local, &CaseRec) -> Result<(), Violation> + Sync,
+{
+    use crate::real::*;
+    let d: Vec<&Vec<u8>> = crate::gen::dict().iter().filter(|t| t.len() >= 3 && t.iter().all(|&b| crate::model::is_tchar(b))).collect();
+    if d.is_empty() {
+        return;
+    }
+    const SHAPES: u64 = 8;
+    const ENTRIES: [(Entry, u8); 5] = [(Entry::Headers, 0), (Entry::ReqParse, 0), (Entry::RespParse, 0), (Entry::RespCfg, C_SPACES_AFTER_NAME | C_IGNORE_RESP), (Entry::ReqCfg, C_IGNORE_REQ | C_SPACE_BEFORE_FIRST)];
+    let total = d.len() as u64 * SHAPES * ENTRIES.len() as u64 * 3;
+    r.par_enum(&format!("{} tchar literals of the source under test as header names / values in relations: the same name on two consecutive lines (equal / different values, three spellings), equal values, whitespace before the colon × 5 entry/config sets × capacity {{1, 2, 8}}", d.len()), total, |ctx, l, idx| {
+        let mut x = idx;
+        let cap = [1usize, 2, 8][(x % 3) as usize];
+        x /= 3;
+        let (entry, cfg) = ENTRIES[(x % ENTRIES.len() as u64) as usize];
+        x /= ENTRIES.len() as u64;
+        let shape = x % SHAPES;
+        let tok = d[(x / SHAPES) as usize];
+        if !accept(entry, cfg) {
+            return Ok(());
+        }
+        let upper: Vec<u8> = tok.to_ascii_uppercase();
+        let lower: Vec<u8> = tok.to_ascii_lowercase();
+        // Title-Case: first letter and letters after '-' upper
+        let mut title = lower.clone();
+        let mut up = true;
+        for c in title.iter_mut() {
+            if up {
+                *c = c.to_ascii_uppercase();
+            }
+            up = *c == b'-';
+        }
+        let line = |n: &[u8], v: &[u8]| [n, b": ", v, b"\r\n"].concat();
+        let block: Vec<u8> = match shape {
+            0 => [line(tok, b"12"), line(tok, b"12"), b"X: y\r\n\r\n".to_vec()].concat(),
+            1 => [line(&title, b"12"), line(&title, b"12"), b"X: y\r\n\r\n".to_vec()].concat(),
+            2 => [line(&lower, b"12"), line(&upper, b"12"), b"X: y\r\n\r\n".to_vec()].concat(),
+            3 => [line(&title, b"12"), line(&title, b"13"), b"X: y\r\n\r\n".to_vec()].concat(),
+            4 => [line(b"A", tok), line(b"B", tok), b"\r\n".to_vec()].concat(),
+            5 => [&title[..], b" : chunked\r\nX: y\r\n\r\n"].concat(),
+            6 => [line(b"A", b"b"), line(&title, b"0"), line(&title, b"0"), line(&title, b"0"), b"\r\n".to_vec()].concat(),
+            _ => [line(&title, tok), line(&title, tok), b"\r\n".to_vec()].concat(),
+        };
+        let buf = if entry.kind() == Kind::Headers { block } else { with_start_line(entry.kind(), &block) };
+        let rec = CaseRec::new(sub, entry, cfg, cap, buf);
+        f(r, ctx, l, &rec)
+    });
+}
